@@ -225,6 +225,49 @@ func c05Run(run *ev.Run) {
 		}
 		run.Extra[fmt.Sprintf("levels_spec%d", i)] = st.LevelSizes
 	}
+	// volume: one long-lived store serving thousands of visitors - what holds for the first removal holds for the
+	// 1024th and the 2048th (every visitor: redirect without cookie, the pending id presented again on another path
+	// must be replaced and nothing may be left under it; every 64th visitor logs in, uses the session and logs out)
+	visitors := 2600
+	if run.Tier == "thorough" {
+		visitors = 9000
+	}
+	for _, store := range []string{"memory", "redis"} {
+		w := world.New(world.Spec{Store: store, Forward: true, Logout: true, RealGen: true})
+		bad := 0
+		for v := 0; v < visitors && bad == 0; v++ {
+			r1 := w.Do(world.Req{Path: fmt.Sprintf("/v%d", v)}, world.Plan{})
+			s1 := w.SessionFromSetCookie(r1)
+			r2 := w.Do(world.Req{Path: fmt.Sprintf("/v%d/again", v), Cookie: s1}, world.Plan{})
+			s2 := w.SessionFromSetCookie(r2)
+			switch {
+			case s1 == "" || s2 == "" || s1 == s2:
+				run.Violation("C05 session-id-reused presented=pending volume", fmt.Sprintf("visitor %d: ids %q then %q", v, s1, s2), map[string]any{"volume": true, "visitor": v, "store": store})
+				bad++
+			case w.HasAnything(s1):
+				run.Violation("C05 old-session-not-destroyed presented=pending volume", fmt.Sprintf("visitor %d (store %s): after the second login redirect the store still holds data under the first id", v, store),
+					map[string]any{"volume": true, "visitor": v, "store": store})
+				bad++
+			}
+			if v%64 == 63 && bad == 0 {
+				if cb, _, err := w.IdP.Authorize(r2.Location); err == nil {
+					w.Do(world.Req{Path: strings.TrimPrefix(cb, "https://app.test"), Cookie: s2}, world.Plan{})
+					if r := w.Do(world.Req{Path: "/app", Cookie: s2}, world.Plan{}); !r.OK {
+						run.Violation("C05 login-does-not-complete volume", fmt.Sprintf("visitor %d: login completed but the next request is answered %v", v, r.Code), map[string]any{"volume": true, "visitor": v, "store": store})
+						bad++
+					}
+					w.Do(world.Req{Path: world.LogoutPath, Cookie: s2}, world.Plan{})
+					if w.HasAnything(s2) {
+						run.Violation("C05 session-survives-logout volume", fmt.Sprintf("visitor %d (store %s): the store still holds the session after logout", v, store), map[string]any{"volume": true, "visitor": v, "store": store})
+						bad++
+					}
+				}
+			}
+		}
+		w.Close()
+		run.Class(fmt.Sprintf("volume|store=%s|visitors=%d", store, visitors))
+	}
+	run.Extra["volume_visitors"] = visitors
 	// concurrent checks on one session against a provider that rotates refresh tokens
 	var scheds int64
 	scs := []schedx.Scenario{c05ConcScenario("memory", 2, 2), c05ConcScenario("redis", 2, 2)}
